@@ -24,6 +24,7 @@ import (
 	"strconv"
 	"strings"
 	"testing"
+	"unsafe"
 
 	"github.com/btcsuite/btcd/btcec/v2"
 	"github.com/lightningnetwork/lnd/tlv"
@@ -1022,6 +1023,260 @@ func (c *c10) probes(harvest [][]byte, thorough bool) {
 
 // sizeBoundary: pad a valid encoding up to the 65535 limit with one unknown
 // record / raw bytes so that the total hits 65533..65535 exactly.
+// ---- boundary feature vectors (generic, by reflection) ---------------------
+
+var c10rfvType = reflect.TypeOf(RawFeatureVector{})
+
+// c10featVecs collects every feature vector reachable from v: values of type
+// RawFeatureVector or of a type defined on it (ChannelType, QueryOptions, …),
+// held by value, by pointer, inside tlv.RecordT / fn.Option wrappers
+// (unexported fields are reached through their address).  The message must
+// have been passed by pointer so that its fields are addressable.
+func c10featVecs(v reflect.Value, out *[]*RawFeatureVector, depth int) {
+	if depth > 14 || !v.IsValid() {
+		return
+	}
+	switch v.Kind() {
+	case reflect.Ptr, reflect.Interface:
+		if !v.IsNil() {
+			c10featVecs(v.Elem(), out, depth+1)
+		}
+	case reflect.Struct:
+		if v.Type().ConvertibleTo(c10rfvType) && v.CanAddr() {
+			fv := (*RawFeatureVector)(unsafe.Pointer(v.UnsafeAddr()))
+			*out = append(*out, fv)
+			return
+		}
+		// an absent optional (fn.Option with isSome == false) holds no value:
+		// what lies inside it is not part of the message value
+		if f := v.FieldByName("isSome"); f.IsValid() && f.Kind() == reflect.Bool &&
+			strings.HasPrefix(v.Type().Name(), "Option[") && !f.Bool() {
+
+			return
+		}
+		for i := 0; i < v.NumField(); i++ {
+			c10featVecs(v.Field(i), out, depth+1)
+		}
+	}
+}
+
+// c10featSets: sets of feature bits around every boundary of the encoding
+// (byte boundaries at both ends of the uint16 bit-index space; the largest
+// vector has 8192 bytes = bit 65535).
+var c10featSets = [][]FeatureBit{
+	{65535}, {65528}, {65527}, {0, 65535}, {65534, 7, 8}, {65519, 65520},
+	{32767, 32768}, {255, 256}, {2047}, {2048},
+}
+
+// featureBoundaries: the generated value `mk()` with every feature vector it
+// holds set to boundary bit sets, as a value (lossless round trip) and as
+// bytes (canonical fixpoint).  Any set of 16-bit feature bits is a well-formed
+// vector, so these are well-formed values.  Returns false when the value holds
+// no feature vector.
+func (c *c10) featureBoundaries(mt MessageType, mk func() Message, sets [][]FeatureBit) bool {
+	found := false
+	for _, set := range sets {
+		m := mk()
+		if m == nil {
+			return found
+		}
+		var fvs []*RawFeatureVector
+		c10featVecs(reflect.ValueOf(m), &fvs, 0)
+		if len(fvs) == 0 {
+			return false
+		}
+		found = true
+		for _, fv := range fvs {
+			fv.features = make(map[FeatureBit]struct{}, len(set))
+			for _, b := range set {
+				fv.features[b] = struct{}{}
+			}
+		}
+		if enc := c.val("gen-feat", mt, m); enc != nil {
+			c.msg("valid", enc)
+		}
+	}
+	return found
+}
+
+// ---- onion failure VALUES with boundary integers ---------------------------
+
+var c10u64Bounds = []uint64{0, 1, 0xfc, 0xfd, 0xfe, 0xff, 0x100, 0xffff, 0x10000, 0x10001,
+	0xffffffff, 0x100000000, 0x100000001, 1<<63 - 1, 1 << 63, 1<<64 - 2, 1<<64 - 1}
+
+// c10setUints sets every unsigned-integer field at the top level of the failure
+// struct (exported or not; nested messages such as the channel_update are left
+// alone) to v truncated to the field's width.  Every such field of every
+// failure message is an unconstrained integer, so the result is well-formed.
+func c10setUints(fm FailureMessage, v uint64) bool {
+	rv := reflect.ValueOf(fm)
+	if rv.Kind() != reflect.Ptr || rv.IsNil() || rv.Elem().Kind() != reflect.Struct {
+		return false
+	}
+	st := rv.Elem()
+	any := false
+	for i := 0; i < st.NumField(); i++ {
+		f := st.Field(i)
+		switch f.Kind() {
+		case reflect.Uint8, reflect.Uint16, reflect.Uint32, reflect.Uint64:
+			reflect.NewAt(f.Type(), unsafe.Pointer(f.UnsafeAddr())).Elem().SetUint(v)
+			any = true
+		}
+	}
+	return any
+}
+
+func c10cloneFail(fm FailureMessage) FailureMessage {
+	rv := reflect.ValueOf(fm)
+	n := reflect.New(rv.Elem().Type())
+	n.Elem().Set(rv.Elem())
+	return n.Interface().(FailureMessage)
+}
+
+// fval: an onion failure VALUE: EncodeFailure, DecodeFailure, compare.
+func (c *c10) fval(kind string, fm FailureMessage) (out []byte) {
+	c.caseStart(kind, 0)
+	res := ""
+	func() {
+		defer func() {
+			if r := recover(); r != nil {
+				res = "panic"
+				out = nil
+			}
+		}()
+		d0 := c10dump(fm)
+		var b bytes.Buffer
+		if err := EncodeFailure(&b, fm, 0); err != nil {
+			res = "encerr"
+			return
+		}
+		out = append([]byte{}, b.Bytes()...)
+		fm2, err := DecodeFailure(bytes.NewReader(out), 0)
+		if err != nil {
+			res = fmt.Sprintf("%s decerr size=%d", c10hx(out), len(out))
+			return
+		}
+		rt := 0
+		d2 := c10dump(fm2)
+		if d2 == d0 || d2 == c10dump(fm) {
+			rt = 1
+		}
+		res = fmt.Sprintf("%s rt=%d size=%d", c10hx(out), rt, len(out))
+	}()
+	c.pf("fval %d => %s", uint16(fm.Code()), res)
+	c.caseEnd()
+	return out
+}
+
+// c10frameFail wraps an inner failure message like EncodeFailure does (without
+// its 256-byte limit).
+func c10frameFail(inner []byte) []byte {
+	pad := 0
+	if len(inner) < FailureMessageLength {
+		pad = FailureMessageLength - len(inner)
+	}
+	return c10cat([]byte{byte(len(inner) >> 8), byte(len(inner))}, inner,
+		[]byte{byte(pad >> 8), byte(pad)}, make([]byte, pad))
+}
+
+// failUpdateVariants: structure-aware edits of the channel_update embedded in a
+// canonical failure encoding.  The update is located generically: a u16 length
+// that reaches exactly the end of the inner message, followed by the 2-byte
+// message type of channel_update (what writeOnionErrorChanUpdate writes).
+func (c *c10) failUpdateVariants(enc []byte) {
+	if len(enc) < 6 {
+		return
+	}
+	l := int(binary.BigEndian.Uint16(enc))
+	if 2+l > len(enc) {
+		return
+	}
+	inner := enc[2 : 2+l]
+	for pos := 2; pos+4 <= len(inner); pos++ {
+		ul := int(binary.BigEndian.Uint16(inner[pos:]))
+		if pos+2+ul != len(inner) || inner[pos+2] != 0x01 || inner[pos+3] != 0x02 {
+			continue
+		}
+		head, upd := inner[:pos], inner[pos+4:] // upd: update body without the type prefix
+		mk := func(declared int, body ...[]byte) []byte {
+			return c10frameFail(c10cat(head, []byte{byte(declared >> 8), byte(declared)}, c10cat(body...)))
+		}
+		typ := []byte{0x01, 0x02}
+		// compatibility mode: no type prefix
+		c.fail("fail-upd-noprefix", mk(len(upd), upd))
+		// declared length beyond / short of the data that is there
+		for _, d := range []int{1, 2, 9, 1000, 65535 - ul} {
+			c.fail("fail-upd-len-long", mk(ul+d, typ, upd))
+		}
+		for _, d := range []int{1, 2, 3, 8, 9, ul - 3, ul - 2, ul - 1, ul} {
+			if d >= 0 && d <= ul {
+				c.fail("fail-upd-len-short", mk(ul-d, typ, upd))
+			}
+		}
+		// surplus bytes after the update inside the inner message
+		c.fail("fail-upd-surplus", mk(ul, typ, upd, c.bytes(1+c.rng.Intn(20))))
+		// extension records appended to the update's TLV tail (types above the
+		// known 55555 so that the stream stays canonical), length fixed up: the
+		// inner message crosses the 256-byte limit of EncodeFailure
+		for _, extLen := range []int{0, 1, 40, 255 - len(inner) - 5, 256 - len(inner) - 5, 257 - len(inner) - 5, 300} {
+			if extLen < 0 {
+				continue
+			}
+			for _, t := range []uint64{55557, 55558} {
+				ext := c10encRecs([]c10rec{{t, c.bytes(extLen)}})
+				c.fail("fail-upd-ext", mk(ul+len(ext), typ, upd, ext))
+				c.fail("fail-upd-ext-noprefix", mk(len(upd)+len(ext), upd, ext))
+			}
+		}
+		// inbound-fee record (known type 55555, 8 bytes) present / wrong length
+		for _, n := range []int{8, 7, 9} {
+			ext := c10encRecs([]c10rec{{55555, c.bytes(n)}})
+			c.fail("fail-upd-known-rec", mk(ul+len(ext), typ, upd, ext))
+		}
+		// message-flags bit 0 (max-HTLC field present) toggled: the body is 8 bytes
+		// longer / shorter than the flag says
+		if len(upd) > 108 {
+			u2 := append([]byte{}, upd...)
+			u2[108] ^= 1
+			c.fail("fail-upd-flag", mk(ul, typ, u2))
+			if u2[108]&1 == 1 {
+				u3 := c10cat(u2[:128], c.bytes(8), u2[128:])
+				c.fail("fail-upd-flag-fit", mk(ul+8, typ, u3))
+			} else if len(u2) >= 136 {
+				u3 := c10cat(u2[:128], u2[136:])
+				c.fail("fail-upd-flag-fit", mk(ul-8, typ, u3))
+			}
+		}
+		// an update whose own first two bytes are 0102 without the prefix
+		// (signature starting with 0102): read as a prefix by the decoder
+		if len(upd) >= 2 {
+			u2 := append([]byte{}, upd...)
+			u2[0], u2[1] = 0x01, 0x02
+			c.fail("fail-upd-sig0102", mk(len(u2), u2))
+			c.fail("fail-upd-sig0102", mk(ul, typ, u2))
+		}
+		return
+	}
+}
+
+// failPayloadVariants: the inner message (code ‖ payload) cut at every length,
+// and extended, with matching framing: optional tack-on fields
+// (incorrect_or_unknown_payment_details) and partial fields.
+func (c *c10) failPayloadVariants(enc []byte, thorough bool) {
+	if len(enc) < 4 {
+		return
+	}
+	l := int(binary.BigEndian.Uint16(enc))
+	if 2+l > len(enc) || l > 64 && !thorough {
+		return
+	}
+	inner := enc[2 : 2+l]
+	for k := 0; k <= len(inner) && k <= 64; k++ {
+		c.fail("fail-inner-cut", c10frameFail(inner[:k]))
+	}
+	c.fail("fail-inner-ext", c10frameFail(c10cat(inner, c.bytes(1+c.rng.Intn(8)))))
+}
+
 func (c *c10) sizeBoundary(enc []byte, thorough bool) {
 	totals := []int{65535}
 	if thorough {
@@ -1141,6 +1396,34 @@ func TestVerifC10(t *testing.T) {
 				c.msg("valid", enc)
 				if thorough || li < 12 {
 					c.addrBlobMutations(enc, addrs)
+				}
+			}
+		}
+		// boundary feature vectors in every message value that holds one
+		{
+			nFeat, maxFeat := 0, 2
+			if thorough {
+				maxFeat = 6
+			}
+			for i := 0; i < nGen && nFeat < maxFeat; i++ {
+				s := int(seed)*1000003 + ti*1009 + i
+				mk := func() (m Message) {
+					defer func() {
+						if r := recover(); r != nil {
+							m = nil
+						}
+					}()
+					return gen.Example(s)
+				}
+				sets := c10featSets
+				if !thorough {
+					k := 4 + (int(seed)+ti+i)%(len(c10featSets)-5)
+					sets = append(append([][]FeatureBit{}, c10featSets[:4]...), c10featSets[k:k+2]...)
+				}
+				if c.featureBoundaries(mt, mk, sets) {
+					nFeat++
+				} else if i >= 3 {
+					break
 				}
 			}
 		}
@@ -1271,6 +1554,23 @@ func TestVerifC10(t *testing.T) {
 		}
 		fencs = append(fencs, append([]byte{}, b.Bytes()...))
 	}
+	// failure VALUES: the fixtures, and every fixture with its integer fields
+	// set to boundary values (BigSize / width boundaries).
+	for _, fm := range onionFailures {
+		c.fval("fail-gen", c10cloneFail(fm))
+		for vi, v := range c10u64Bounds {
+			f2 := c10cloneFail(fm)
+			if !c10setUints(f2, v) {
+				break
+			}
+			if enc := c.fval("fail-gen", f2); enc != nil {
+				c.fail("fail-valid", enc)
+				if thorough || vi == 0 || vi == int(seed)%len(c10u64Bounds) {
+					fencs = append(fencs, enc)
+				}
+			}
+		}
+	}
 	nValid := len(fencs)
 	// every registered failure code with an empty payload and padding
 	for code := 0; code < 1<<16; code++ {
@@ -1285,6 +1585,8 @@ func TestVerifC10(t *testing.T) {
 	for i, enc := range fencs {
 		if i < nValid {
 			c.fail("fail-valid", enc)
+			c.failUpdateVariants(enc)
+			c.failPayloadVariants(enc, thorough)
 		} else {
 			c.fail("fail-bare", enc)
 		}
@@ -1311,7 +1613,8 @@ func TestVerifC10(t *testing.T) {
 		if n >= 4 {
 			l := int(binary.BigEndian.Uint16(enc))
 			if 2+l <= n {
-				for _, extLen := range []int{c.rng.Intn(200), 249 - l, 250 - l, 300} {
+				// inner lengths 253..257: both sides of EncodeFailure's 256-byte limit
+				for _, extLen := range []int{c.rng.Intn(200), 249 - l, 250 - l, 251 - l, 252 - l, 253 - l, 300} {
 					if extLen < 0 {
 						continue
 					}
